@@ -222,7 +222,9 @@ class C11(Prop):
         member = fd({'row': ROW_STRATEGY, 'loc': st.sampled_from([0, 0, 0, 1]),
                                         'bad': st.sampled_from([None, None, None, 'stage', 'metric'])})
         response = fd({'mode': st.just('response'), 'members': st.lists(member, min_size=1, max_size=5),
-                                          'via': st.sampled_from(['poll', 'poll', 'register'])})
+                       'via': st.sampled_from(['poll', 'poll', 'register']),
+                       # a second poll answer that keeps only these members (same ids, same definitions)
+                       'repoll_keep': st.one_of(st.none(), st.lists(st.booleans(), min_size=5, max_size=5))})
         return st.one_of(row, response, response)
 
     def run_case(self, recipe):
@@ -279,6 +281,15 @@ class C11(Prop):
         if recipe['via'] == 'poll':
             try:
                 triggers = convert_response(protos)
+                keep = recipe.get('repoll_keep')
+                if keep is not None:
+                    # the next poll brings a smaller configuration: only what it names may act afterwards
+                    out.cls('second_poll_with_subset')
+                    sel = [i for i in range(len(protos)) if keep[i]]
+                    triggers = convert_response([protos[i] for i in sel])
+                    rows = [rows[i] for i in sel]
+                    members = [members[i] for i in sel]
+                    protos = [protos[i] for i in sel]
             except BaseException as e:      # noqa
                 out.violate('one uninterpretable tracepoint loses the whole response: convert_response raised %s'
                             % lab.exc_bucket(e), {'bad': [b for _, _, b in rows]})
@@ -325,6 +336,16 @@ class C11(Prop):
             # possible, so compare totals for the probed location
             self.totals(out, rows, members, seen)
             return out
+        # nothing may act that the (latest) response does not name
+        kept = {tp_id for tp_id, _, _ in rows}
+        for where in ('line', 'method'):
+            actors = {s_.tracepoint.id for s_ in seen[where]['snapshots']} | {sp.tp_id for sp in seen[where]['spans']} | \
+                {c[1].split('_', 1)[1] for c in seen[where]['metrics'] if '_' in c[1]} | \
+                {c[1] for c in seen[where]['logs'] if str(c[1]).startswith('tp')}
+            ghosts = sorted(a for a in actors if a.startswith('tp') and a not in kept)
+            if ghosts:
+                out.violate('a tracepoint that the latest response no longer names still acts', {'ghosts': ghosts})
+                return out
         for (tp_id, row, bad), m in zip(rows, members):
             eff0 = expected_effects(row)
             if m['loc'] != 0 and not (isinstance(eff0, dict) and eff0['where'] == 'method'):
